@@ -462,6 +462,9 @@ class Engine:
 
     def decide(self, cond: Any) -> bool:
         if isinstance(cond, Opaque):
+            if getattr(self, "nondet_opaque", False):
+                # over-approximation for safety/totality clauses: an unmodelled condition may go either way
+                return self.choose(2) == 0
             raise OutsideSubset(f"branch on unmodelled value: {cond.why}")
         if not is_sym(cond):
             return bool(cond)
@@ -1518,6 +1521,9 @@ class Frame:
             if name in _MUTATORS and getattr(obj, "_frozen_origin", None):
                 eng.oblige(False, f"mutation of module-level state {obj._frozen_origin} (.{name})")
             return BoundV(_native(h), obj)
+        if is_sym(obj) or isinstance(obj, str):
+            # an unmodelled string method: its result is an unmodelled value (harmless unless branched on)
+            return BoundV(_native(lambda e, recv, *a, **k: Opaque(f"str.{name}()")), obj)
         raise OutsideSubset(f"attribute {name} of {type(obj).__name__}")
 
     def symenum_attr(self, obj: SymEnum, name: str) -> Any:
